@@ -386,11 +386,12 @@ theorem agreesOptions_perm {rows rows' : List OptRow} {obs obs' : List Observed}
   unfold AgreesOptions AgreesOption
   simp only [hr.mem_iff, ho.mem_iff, rowNameFor_perm hr]
 
-/-- agreement means: the value shown for an option the top-level project read is the value it got -/
+/-- agreement means: the value shown for a project option the top-level project read is the value it got -/
 theorem agreesOptions_toplevel {rows : List OptRow} {obs : List Observed} (h : AgreesOptions rows obs)
-    {o : Observed} (ho : o ∈ obs) (htop : o.sub = []) : ∃ r ∈ rows, r.name = o.name ∧ r.value = o.value := by
+    {o : Observed} (ho : o ∈ obs) (htop : o.sub = []) (hproj : o.builtin = false) :
+    ∃ r ∈ rows, r.name = o.name ∧ r.value = o.value := by
   obtain ⟨⟨r, hr, hn⟩, hv⟩ := h o ho
-  have : rowNameFor rows o = o.name := by unfold rowNameFor; simp [htop]
+  have : rowNameFor rows o = o.name := by unfold rowNameFor; simp [htop, hproj]
   exact ⟨r, hr, by rw [hn, this], hv r hr hn⟩
 
 /-- a row that shows a subproject option's own value cannot agree once the subproject read another (e.g. a yielded)
@@ -491,6 +492,10 @@ example : AgreesInstalled (s "/usr") [(s "/b/app", s "/usr/bin/app"), (s "/s/a.h
 example : AgreesOptions [⟨s "c", s "c"⟩, ⟨s "sp:c", s "c"⟩, ⟨s "werror", s "false"⟩]
     [⟨[], s "c", false, s "c"⟩, ⟨s "sp", s "c", false, s "c"⟩, ⟨s "sp", s "werror", true, s "false"⟩] :=
   (checkOptions_iff _ _).1 (by decide)
+/-- native build: `build.c_args` is described by the row `c_args`; cross build: by its own row -/
+example : AgreesOptions [⟨s "c_args", s "['-DN']"⟩] [⟨[], s "build.c_args", true, s "['-DN']"⟩] := (checkOptions_iff _ _).1 (by decide)
+example : ¬ AgreesOptions [⟨s "c_args", s "['-DX']"⟩, ⟨s "build.c_args", s "[]"⟩] [⟨[], s "build.c_args", true, s "['-DX']"⟩] :=
+  fun h => absurd ((checkOptions_iff _ _).2 h) (by decide)
 /-- the defect repaired in /repo ec2d585: the subproject read `c`, the row showed the option's own value `b` -/
 example : ¬ AgreesOptions [⟨s "c", s "c"⟩, ⟨s "sp:c", s "b"⟩] [⟨s "sp", s "c", false, s "c"⟩] :=
   fun h => absurd ((checkOptions_iff _ _).2 h) (by decide)
